@@ -82,12 +82,46 @@ def crit_spec(kind, n):
 N_CRIT = 4
 
 
+def policy_of(case):
+    """the label policy of the case: an explicit `matching_label_policy` (DEFAULT / ALLOW_UNKNOWN / ALLOW_ANY) or, without one, the legacy
+    `allow_matching_unknown` switch"""
+    return case.get("policy") or ("ALLOW_UNKNOWN" if case["unknown"] else "DEFAULT")
+
+
 def make_manager(case, tag="trk"):
     n = len(case["targets"])
     over = {"target_labels": list(case["targets"]), "min_point_numbers": [0] * n, "allow_matching_unknown": bool(case["unknown"])}
+    if case.get("policy"):
+        del over["allow_matching_unknown"]
+        over["matching_label_policy"] = case["policy"]          # the documented key; the legacy switch is then not consulted
     for k, _, _ in MODE_ORDER:
         over[CFG_KEY[k]] = [list(t) for t in case["cfg"][k]]
+    if case.get("dim") == "2d":
+        # a tracking2d evaluator on the front camera (no dataset: the fixture has no camera annotations); plane-distance and IoU-3D
+        # thresholds stay configured -- a 2D task must not build scores from them
+        from perception_eval.config import PerceptionEvaluationConfig
+        from perception_eval.manager import PerceptionEvaluationManager
+
+        cfg = MC.base_config("tracking2d", **over)
+        if "matching_label_policy" in over:
+            cfg.pop("allow_matching_unknown", None)
+        for k in ("max_x_position", "max_y_position", "min_point_numbers"):
+            cfg.pop(k, None)
+        return PerceptionEvaluationManager(PerceptionEvaluationConfig([], "cam_front", MC.tmp_dir(tag), cfg, False))
+    if "matching_label_policy" in over:
+        over["allow_matching_unknown"] = None                    # dropped by MC.base_config
     return MC.make_manager("tracking", case["frame"], tag=tag, **over)
+
+
+def make_object2d(spec, t):
+    """the scene object as a ROI on the front camera: 8 px per metre, top-left corner from (x, y), width / height from the box"""
+    from perception_eval.common.object2d import DynamicObject2D
+    from perception_eval.common.schema import FrameID
+
+    x, y = spec["pos"][0], spec["pos"][1]
+    roi = (int(round(8 * x)) + 4000, int(round(8 * y)) + 4000, max(1, int(round(8 * spec["size"][0]))), max(1, int(round(8 * spec["size"][1]))))
+    return DynamicObject2D(unix_time=t, frame_id=FrameID.CAM_FRONT, semantic_score=spec.get("conf", 1.0), semantic_label=MC.label_of(spec["label"]),
+                           roi=roi, uuid=spec.get("uuid"))
 
 
 def _fin(x):
@@ -114,6 +148,12 @@ def score_obs(ms):
     return out
 
 
+def _mval(m):
+    """value of a matching; a mode that does not exist for the object type (IoU 3D / plane distance of a ROI) is reported as 0 and is
+    never looked at: no score of that mode may be built"""
+    return 0.0 if m is None or m.value is None else float(m.value)
+
+
 def run_history(case, ren=None, tag="trk"):
     """Run the real manager over the case's frames.  ren = (est uuid -> uuid, gt uuid -> uuid) renames the tracks."""
     from perception_eval.evaluation.matching.object_matching import MatchingMode
@@ -128,13 +168,21 @@ def run_history(case, ren=None, tag="trk"):
         f2 = fr
         if ren is not None:
             f2 = dict(fr, gts=[dict(g, uuid=ren[1](g["uuid"])) for g in fr["gts"]], ests=[dict(e, uuid=ren[0](e["uuid"])) for e in fr["ests"]])
-        gt = MC.make_gt_frame(f2, case["frame"])
-        ests = MC.make_estimates(f2, case["frame"])
+        if case.get("dim") == "2d":
+            from perception_eval.common.dataset import FrameGroundTruth
+
+            gt = FrameGroundTruth(f2["t"], str(f2["index"]), [make_object2d(g, f2["t"]) for g in f2["gts"]])
+            ests = [make_object2d(e, f2["t"]) for e in f2["ests"]]
+        else:
+            gt = MC.make_gt_frame(f2, case["frame"])
+            ests = MC.make_estimates(f2, case["frame"])
         crit = MC.critical_cfg(mgr, crit_spec(fr.get("crit", case["crit"]), n), targets=crit_targets)
         try:
             r = mgr.add_frame_result(f2["t"], gt, ests, crit, MC.passfail_cfg(mgr, case["pf"], targets=case["targets"]))
         except KeyError as e:
             return {"error": f"KeyError: {e}", "at_frame": len(frames), "frames": frames}
+        except (AttributeError, TypeError, IndexError, ValueError, AssertionError) as e:     # a (mutated) evaluator may raise: an observation
+            return {"error": f"{type(e).__name__}: {e}", "at_frame": len(frames), "frames": frames}
         res = []
         for x in r.object_results:
             eo, go = x.estimated_object, x.ground_truth_object
@@ -145,7 +193,7 @@ def run_history(case, ren=None, tag="trk"):
                 g = g_ids.setdefault(go.uuid, len(g_ids))
                 res.append([e, eo.semantic_label.label.value,
                             [g, go.semantic_label.label.value, bool(go.semantic_label.is_fp()), bool(x.is_label_correct)]
-                            + [float(x.get_matching(modes[k]).value) for k, _, _ in MODE_ORDER]])
+                            + [_mval(x.get_matching(modes[k])) for k, _, _ in MODE_ORDER]])
         frames.append({"results": res, "gts": [g.semantic_label.label.value for g in r.frame_ground_truth.objects],
                        "bl": [l.value for l in crit.target_labels], "scores": score_obs(r.metrics_score),
                        "num_gt": int(r.metrics_score.num_ground_truth),
@@ -177,7 +225,9 @@ def coq_frame(f):
 
 
 def coq_cfg(case):
-    parts = [llit([llit([qlit(t) for t in thr]) for thr in case["cfg"][k]]) for k, _, _ in MODE_ORDER]
+    # tracking2d: the configured IoU-3D / plane-distance lists yield no score -- the model is run with them empty
+    skip = ("iou3d", "plane") if case.get("dim") == "2d" else ()
+    parts = [llit([llit([qlit(t) for t in thr]) for thr in ([] if k in skip else case["cfg"][k])]) for k, _, _ in MODE_ORDER]
     return "(mkCfg " + " ".join(parts) + ")"
 
 
@@ -203,10 +253,13 @@ def coq_run_term(case, obs):
 # ------------------------------------------------------------------------------------------------
 # the direct property predicate (independent of the Coq model, of CLEAR and of is_result_correct)
 # ------------------------------------------------------------------------------------------------
-def _labok(allow_unknown, el, gl):
-    if gl == "false_positive":
+def _labok(policy, el, gl):
+    """policy: "DEFAULT" | "ALLOW_UNKNOWN" | "ALLOW_ANY" (or the legacy bool allow_matching_unknown)"""
+    if isinstance(policy, bool):
+        policy = "ALLOW_UNKNOWN" if policy else "DEFAULT"
+    if gl == "false_positive" or policy == "ALLOW_ANY":
         return True
-    if allow_unknown:
+    if policy == "ALLOW_UNKNOWN":
         return el == gl or el == "unknown"
     return el == gl
 
@@ -287,6 +340,8 @@ def expected_specs(case):
     """[(mode index, reported mode name, threshold list)] in the order evaluate_tracking must produce"""
     out = []
     for mi, (k, name, _) in enumerate(MODE_ORDER):
+        if case.get("dim") == "2d" and k in ("iou3d", "plane"):
+            continue            # not defined on an image: a tracking2d evaluation has centre-distance and IoU-2D scores only
         for thr in case["cfg"][k]:
             out.append((mi, name, list(thr)))
     return out
@@ -361,7 +416,7 @@ def check_scores_obs(where, scores, case, hist_of, ngt_of, tally):
             return f"{where}: one CLEAR per target label expected"
         for j, (c, L, thr) in enumerate(zip(s["clears"], case["targets"], thrs)):
             msg = check_clear_obs(f"{where} tracking_scores[{k}].clears[{j}] ({name}, {L})", c, hist_of(L), L, mi, thr, ngt_of(L),
-                                  case["unknown"], tally)
+                                  policy_of(case), tally)
             if msg:
                 return msg
         msg = check_sum_obs(f"{where} tracking_scores[{k}]", s)
@@ -390,6 +445,8 @@ def same_scores(a, b):
 def oracle_history(case, obs, tally=None):
     tally = {} if tally is None else tally
     if "error" in obs:
+        if not obs["error"].startswith("KeyError"):
+            return f"add_frame_result raised on a legitimate {'tracking2d' if case.get('dim') == '2d' else 'tracking'} history (frame {obs['at_frame']}: {obs['error']})"
         return f"{KEYERROR_MSG} (frame {obs['at_frame']}: {obs['error']})"
     frames = obs["frames"]
     if obs["n_frame_results"] != len(frames):
@@ -585,6 +642,13 @@ def gen_random_scene(rng, tier):
                  crit=rng.randrange(N_CRIT), pf=rng.choice([0.5, 1.0, 2.0]), rename=rng.random() < 0.3, crit_targets=crit_targets)
 
 
+def to_2d(case):
+    """the same history as ROI objects on the front camera for a tracking2d evaluator (8 px per metre: centre-distance thresholds in pixels)"""
+    c = dict(case, dim="2d", frame="base_link", stream=case["stream"] + "-2d", pf=min(case["pf"], 0.5))     # pass/fail by IoU 2D: within [0, 1]
+    c["cfg"] = dict(case["cfg"], center=[[8.0 * t for t in thr] for thr in case["cfg"]["center"]])
+    return c
+
+
 def gen_shapes(rng, tier):
     """perfect tracker / one new id / one swap on well-separated targets: the scene totals the property text demands"""
     out = []
@@ -675,6 +739,11 @@ def gen_boundary(rng, tier):
             for unknown in (True, False):
                 out.append(_case("boundary", [dict(f, ego={"t": [3.0, -2.0, 0.5], "cs": [0.6, 0.8]}) for f in fr] if frame == "map" else fr,
                                  T2, cfg2, frame=frame, unknown=unknown, rename=True))
+    # the label policy given by the documented key: ALLOW_ANY makes the cross-label pairs label-compatible; and the 2D evaluator
+    for fr in (scen[12], scen[13], scen[14], scen[15], scen[16]):
+        out.append(_case("boundary", fr, T2, cfg2, policy="ALLOW_ANY", rename=True))
+        out.append(_case("boundary", fr, T2, cfg2, policy="DEFAULT", unknown=True))
+        out.append(to_2d(_case("boundary", fr, T2, cfg2, rename=True)))
     # critical target labels given in another order than the evaluator's
     out.append(_case("boundary", scen[4], T2, cfg2, crit_targets=[P, C]))
     # a single configured score, three labels with three thresholds
@@ -706,8 +775,14 @@ class TrackingPipelineCorr(Corr):
 
     def cases(self, tier, rng):
         out = gen_boundary(rng, tier) + gen_shapes(rng, tier)
-        for _ in range(100 if tier == "quick" else 1200):
-            out.append(gen_random_scene(rng, tier))
+        for k in range(100 if tier == "quick" else 1200):
+            c = gen_random_scene(rng, tier)
+            if k % 5 == 2:
+                # the label policy through the documented `matching_label_policy` key (ALLOW_ANY is not reachable through the legacy switch)
+                c["policy"] = rng.choice(["ALLOW_ANY", "ALLOW_ANY", "ALLOW_UNKNOWN", "DEFAULT"])
+            if k % 7 == 3:
+                c = to_2d(c)
+            out.append(c)
         return out
 
     def run_impl(self, case):
@@ -734,7 +809,7 @@ class TrackingPipelineCorr(Corr):
         return oracle_history(case, obs)
 
     def nontrivial(self, case, obs):
-        if "error" in obs:
+        if "error" in obs or "frames" not in obs:
             return False
         return len(obs["frames"]) >= 2 and any(c["tp"] + c["fp"] > 0 for s in obs["scene"]["scores"] for c in s["clears"])
 
@@ -751,7 +826,7 @@ class TrackingPipelineCorr(Corr):
         d = {"streams": {}, "frames": {"base_link": 0, "map": 0}, "frames_total": 0, "frames_max": 0, "results_total": 0, "scores_per_metrics_score": {},
              "id_switches_scene": 0, "fp_scene": 0, "tp_scene": 0, "frame_label_gaps": 0, "results_without_gt": 0, "results_on_fp_gt": 0,
              "unknown_estimates_bucketed_by_gt": 0, "cross_label_pairs_skipped_by_clear": 0, "dropped_by_divide": 0,
-             "estimates_filtered_out": 0, "renamed_runs": 0, "mota_inf": 0, "mota_clamped": 0, "non_target_bucket_keys": 0}
+             "estimates_filtered_out": 0, "renamed_runs": 0, "tracking2d_histories": 0, "label_policy_key": {}, "mota_inf": 0, "mota_clamped": 0, "non_target_bucket_keys": 0}
         tally = {}
         for c, o in zip(cases, obs):
             if not isinstance(o, dict) or "frames" not in o or "error" in o:
@@ -761,6 +836,9 @@ class TrackingPipelineCorr(Corr):
             d["frames_total"] += len(o["frames"])
             d["frames_max"] = max(d["frames_max"], len(o["frames"]))
             d["renamed_runs"] += o.get("renamed") is not None
+            d["tracking2d_histories"] += c.get("dim") == "2d"
+            if c.get("policy"):
+                d["label_policy_key"][c["policy"]] = d["label_policy_key"].get(c["policy"], 0) + 1
             ns = len(o["scene"]["scores"])
             d["scores_per_metrics_score"][ns] = d["scores_per_metrics_score"].get(ns, 0) + 1
             for s in o["scene"]["scores"][:1]:
@@ -810,8 +888,13 @@ RULE = ("real PerceptionEvaluationManager(evaluation_task=tracking) on the bundl
         "tracker shapes with the totals the property text demands; random scenes of 2-8 (quick) / 2-14 (thorough) frames, <= 7 persistent ground-truth tracks "
         "with births, deaths, misses, ground-truth gaps, id changes, identity swaps, label changes, spurious and out-of-range estimates, 1-4 target labels with "
         "per-label thresholds, 1-6 configured scores, 4 critical filters (also changing per frame), random rational ego pose; a consistently renamed copy of "
-        "the history is run in 35-60% of the cases; non-trivial = at least two frames and at least one TP or FP in the scene")
-ASSUMPTIONS = ["3D tracking task: scores in the order centre distance, IoU 2D, IoU 3D, plane distance (tracking2d not modelled)",
+        "the history is run in 35-60% of the cases; every fifth random history configures the label policy through the documented `matching_label_policy` "
+        "key (ALLOW_ANY / ALLOW_UNKNOWN / DEFAULT) instead of the legacy switch; every seventh random history (and five boundary ones) is rendered as ROI "
+        "objects for a tracking2d evaluator on the front camera (centre-distance thresholds in pixels; plane-distance / IoU-3D thresholds stay configured "
+        "and must yield no score: exactly the centre-distance and IoU-2D scores, in that order; the model runs with the two lists empty); "
+        "non-trivial = at least two frames and at least one TP or FP in the scene")
+ASSUMPTIONS = ["3D tracking task: scores in the order centre distance, IoU 2D, IoU 3D, plane distance; tracking2d: centre distance, IoU 2D only "
+               "(checked by the oracle and by the model run with empty IoU-3D / plane-distance lists; no separate theorem)",
                "every configured threshold list has one entry per target label (asserted by TrackingMetricsScore)",
                "the evaluated target labels are among the critical filter's target labels (otherwise the dictionary lookup fails: model None); "
                "scene = sum of frames additionally needs the same label membership in both lists and duplicate-free target labels",
